@@ -4,7 +4,7 @@
    return: a caller that keeps calling after an ErrorToken is included), [reach d s] says s is a state
    the lexer is in after some number of calls on input d.  Slices are coordinates [lo,hi) in the buffer
    d ++ [0]; a Go panic / a read outside the buffer would be [None]. *)
-From Verif Require Import Common.Base Common.Lx Xml.Model Xml.Step Xml.Proofs Xml.WellFormed Xml.Checker.
+From Verif Require Import Common.Base Common.Lx Xml.Model Xml.Step Xml.Proofs Xml.WellFormed Xml.Checker Xml.Agree.
 
 (* C01 totality: for every byte string and every number of calls, no call panics (no index outside
    data ++ [0] is read, no slice expression is out of range). *)
@@ -136,9 +136,15 @@ Print Assumptions xml_eof_at_end.
    exactly one token per construct, with the prescribed type, the construct's bytes (the DOCTYPE token
    is exactly the declaration), Text() = name / content and AttrVal() = the quoted value with TAB/LF/CR
    read as space, and then io.EOF.
-   PARTIAL: the grammar's processing instructions outside a DOCTYPE have pseudo-attribute content only,
-   because the code lexes PI content like a start tag (refuted clause below, KNOWN_FINDINGS); CR LF in an
-   attribute value becomes two spaces; agreement with encoding/xml is checked by search only. *)
+   The grammar also has the general tag opener [ITag]: '<' or '<?', a name, any sequence of pieces
+   (optional whitespace, a name in which '/' and '?' may occur unless followed by '>', then nothing, or '='
+   and an unquoted value, or '=' and a quoted value), whitespace, and any of the closers '>' '/>' '?>'.  Its
+   token stream is specified exactly: StartTag / StartTagPI, one Attribute token per piece (Text = the name,
+   AttrVal = nil / the unquoted value / the quoted value), the closer's token.  This is how a processing
+   instruction with free-form content is lexed (a '>' in it is a StartTagClose and what follows is character
+   data); the property-conforming PI and start tag are its special case (xml_tag_opener_conforming).
+   PARTIAL only in this sense: two behaviours differ from XML 1.0 and are stated as exact exceptions below
+   (xml_pi_content_refuted / xml_pi_content_exact, xml_attr_crlf_refuted). *)
 Theorem xml_wellformed_tokens_partial :
   forall items, doc_ok items -> lexes (xml_init (render_doc items)) (expect_doc items) 1.
 Proof. exact xml_wellformed_tokens_proof. Qed.
@@ -170,3 +176,48 @@ Theorem xml_pi_content_refuted :
     Some [(TStartTagPI, Some (0, 3)); (TAttribute, Some (3, 5)); (TStartTagClose, Some (5, 6)); (TText, Some (6, 9))].
 Proof. exact xml_pi_content_refuted_proof. Qed.
 Print Assumptions xml_pi_content_refuted.
+
+(* The exact form of the PI exception: <?p a>b?><a/> is the general opener  <?p  with the piece " a" closed
+   by '>', then character data b?> , then the element; its tokens are exactly those the grammar prescribes. *)
+Theorem xml_pi_content_exact :
+  render_doc ex_pi_gt_items = ex_pi_gt /\
+  lexes (xml_init ex_pi_gt) (expect_doc ex_pi_gt_items) 1 /\
+  map (fun t => fst (fst (fst t))) (expect_doc ex_pi_gt_items) =
+    [TStartTagPI; TAttribute; TStartTagClose; TText; TStartTag; TStartTagCloseVoid].
+Proof. exact xml_pi_content_exact_proof. Qed.
+Print Assumptions xml_pi_content_exact.
+
+(* The conforming processing instruction and start tag (pseudo-attributes / attributes with quoted values)
+   are the general opener with quoted pieces: same bytes, same prescribed tokens. *)
+Theorem xml_tag_opener_conforming :
+  forall t attrs ws,
+    render_item (IPI t attrs ws) = render_item (ITag true t (map g_of_attr attrs) ws TStartTagClosePI) /\
+    expect_item (IPI t attrs ws) = expect_item (ITag true t (map g_of_attr attrs) ws TStartTagClosePI) /\
+    (forall void : bool, let k := if void then TStartTagCloseVoid else TStartTagClose in
+       render_item (IStart t attrs ws void) = render_item (ITag false t (map g_of_attr attrs) ws k) /\
+       expect_item (IStart t attrs ws void) = expect_item (ITag false t (map g_of_attr attrs) ws k)).
+Proof. exact xml_tag_opener_conforming_proof. Qed.
+Print Assumptions xml_tag_opener_conforming.
+
+(* C11 agreement clause.  [ref_events] (Xml/Agree.v) is a reference semantics of what an XML processor
+   reports for a grammar document: start elements with their attribute names and values after line-end
+   and attribute-value normalisation (CR LF -> one space, CR / LF / TAB -> space), end elements (also for
+   empty-element tags), PI targets.  [tok_events] reads the same events off a token stream (Text() of
+   StartTag / Attribute / EndTag / StartTagPI, AttrVal() with the quotes stripped).  For every grammar
+   document made of XML constructs (no general opener) whose attribute values contain no CR LF pair, the
+   lexer's tokens report exactly the reference events.  (The xmlref correspondence run compares ref_events
+   with encoding/xml's RawToken on every generated document.) *)
+Theorem xml_agrees_with_reference :
+  forall items, doc_ok items -> Forall item_no_crlf items ->
+    exists toks, lexes (xml_init (render_doc items)) toks 1 /\ tok_events None toks = ref_events items.
+Proof. exact xml_agrees_with_reference_proof. Qed.
+Print Assumptions xml_agrees_with_reference.
+
+(* The exact exception to the agreement: a CR LF pair inside a quoted value.  For <a b="x CR LF y"/> the
+   reference value is x SP y, the lexer's AttrVal (quotes stripped) is x SP SP y. *)
+Theorem xml_attr_crlf_refuted :
+  exists toks, lexes (xml_init (render_doc ex_crlf_items)) toks 1 /\
+    ref_events ex_crlf_items = [EStart [97] [([98], [120; 32; 121])]; EEnd [97]] /\
+    tok_events None toks = [EStart [97] [([98], [120; 32; 32; 121])]; EEnd [97]].
+Proof. exact xml_attr_crlf_refuted_proof. Qed.
+Print Assumptions xml_attr_crlf_refuted.
